@@ -7,10 +7,6 @@
 //   crg <cases.ndjson> <results.ndjson>
 // case: {"p": [abstract scalars satisfying the predicate], "out": [[a,b],...]}  (from TLC)
 
-#[allow(dead_code)]
-#[path = "/repo/crates/char_range_gen/src/main.rs"]
-mod crg;
-
 use serde_json::{json, Value};
 use std::io::{BufRead, BufReader, BufWriter, Write};
 use std::sync::atomic::{AtomicU32, Ordering};
